@@ -72,6 +72,7 @@ def run(model, res, tier):
     res.rule('R4', 'PV satisfies the annuity equation identically')
     res.rule('R5', 'ATAN2: #DIV/0! exactly at the origin of the coerced coordinates')
     res.rule('R6', 'no cache or shared state')
+    res.rule('R7', 'numeric text is accepted as the number it spells: the shared text-to-number coercion is int() first, float() second, nothing pre-filtered (shared with C06.R9)')
     res.trusted += ['hxsa abstract interpreter', 'hxsa polynomial normal form (exact rational arithmetic)', 'python math function names']
     em, singles = error_singletons(model)
     E = dict((msg, n) for n, msg in singles.items())
@@ -79,6 +80,8 @@ def run(model, res, tier):
     _binary(model, res, E)
     _random(model, res)
     _pv(model, res, E)
+    from . import c06
+    H.borrow(res, 'R7', 'text-to-number coercion', lambda tmp: c06._to_number(model, tmp, H.date_opaque(model), R='R7'))
     _atan2(model, res, E)
     keys = []
     for n in ALL_UNARY + ['LOG', 'POWER', 'PI', 'ATAN2', 'PV', 'RAND', 'RANDBETWEEN']:
@@ -201,6 +204,19 @@ def _binary(model, res, E):
     res.ob('R2', 'POWER', 'POWER(x, y) = x ** y', ok, H.describe(outs))
     if not ok:
         res.violation('R2', 'function:POWER:closed-form', m.where(f), 'POWER(x, y) must be x ** y; got %s' % '; '.join(H.describe(outs)), func=f.name)
+    # outside the real domain (negative base, fractional exponent) python's ** yields a complex number: it must not be returned
+    try:
+        outs = H.run_function(model, H.registry_func(model, 'POWER'), lambda: [Sym('float', 'x'), Sym('float', 'y')],
+                              flags={'pow_complex_forks': True})
+        cx = [o for o in outs if not o.imprecise and any('is complex' in t and alt is True for (t, alt, s_) in o.notes)]
+        bad = [o for o in cx if o.kind == 'return' and o.value.tag != 'err']
+        res.ob('R1', 'POWER', 'a complex power (negative base, fractional exponent) is never returned as a value', not bad, H.describe(cx))
+        if bad:
+            res.violation('R1', 'function:POWER:complex-result', m.where(f),
+                          'for a negative base and a fractional exponent x ** y is a complex number in python 3 and POWER returns it (%s); '
+                          'outside the real domain the result must be an error, never a number' % '; '.join(H.describe(bad)[:2]), func=f.name)
+    except Unmodelled as e:
+        res.ob('R1', 'POWER', 'complex power', True, 'undecided: %s' % e)
     m, f = model.registered('PI')
     outs = _runs(model, 'PI', lambda: [])
     ok = len(outs) == 1 and outs[0].kind == 'return' and isinstance(outs[0].value, Atom) and outs[0].value.op == 'math.pi'
